@@ -83,19 +83,19 @@ def generate(seed, tier, focus="frame"):
             elif k == 2:                       # declares more than it carries
                 body = g.rbytes(1, 10)
                 d = ("MESSAGE sip:s SIP/2.0\r\nVia: SIP/2.0/UDP h\r\nContent-Length: %d\r\n\r\n" % (len(body) + g.rint(1, 30))).encode() + body
-                exp = "rejected"
+                exp = "rejected pool+2"
             elif k == 3:                       # declares less than it carries
                 body = g.rbytes(5, 20)
                 d = ("MESSAGE sip:s SIP/2.0\r\nVia: SIP/2.0/UDP h\r\nContent-Length: %d\r\n\r\n" % g.rint(0, len(body) - 1)).encode() + body
             elif k == 4:                       # ends before its header section is complete
                 hdr_end = m.find(b"\r\n\r\n") if b"\r\n\r\n" in m else m.find(b"\n\n")
                 d = m[:g.rint(1, max(1, hdr_end))]
-                exp = "rejected"
+                exp = "rejected pool+2"
             else:
                 d = m
             tag = "u%d" % i
             e = (" # spec=C10 eq " + exp) if exp else ""
-            lines.append("udpbuf run %d %s # spec=C10 remember %s%s" % (len(d), hx(d), tag, e))
-            lines.append("udpbuf run %d %s # spec=C10 sameas %s%s" % (len(d), hx(d + stale), tag, e))
+            lines.append("udpbuf run %d %s # spec=C10 remember %s # spec=C10 selfrelay%s" % (len(d), hx(d), tag, e))
+            lines.append("udpbuf run %d %s # spec=C10 sameas %s # spec=C10 selfrelay%s" % (len(d), hx(d + stale), tag, e))
             g.count("udp_kind_%d" % k)
     return lines, g.stats
